@@ -630,6 +630,112 @@ class Case:
                     break
         return sched, evs, out, maximal
 
+    def run_crash_closed(self, spec):
+        """the closed system WITH WORKER CRASHES of coq/Model/PoolCrash.v: as run_closed (the harness
+        keeps task queue, pipe, the live workers' protocol state and the result pipe; the REAL
+        parent-side code is the parent), plus: kill (a worker that is executing a job exits with a
+        status), tick (one supervision pass; called tick_early when a message of an exited, not yet
+        reaped worker is still in the result pipe), advance (the clock).  A random enabled step at
+        a time.  Passes and waits that have no point are taken with a small probability only.
+        Returns a dict (sched, events, obs, maximal, killed, doomed)."""
+        import random
+        rng = random.Random(spec['seed'])
+        p = self.pool
+        todo = spec['n']
+        kills = spec.get('kills', 0)
+        codes = spec.get('codes') or [-9, -11, -15, 1, 2, 70, 155, 0]
+        allow_early = spec.get('early', False)
+        idle_p = spec.get('idle_prob', 0.04)
+        bad = spec.get('bad', ())
+        taskq, inq, outq = [], [], []            # outq: (parent event, sender ref)
+        wk = dict((w.ref, None) for w in p._pool)   # live workers (insertion ordered): ref -> job
+        killed = {}                              # job -> [ref, status]
+        lost = []                                # jobs of killed workers not resolved yet
+        sched, evs, out = [], [], []
+        limit = spec.get('stop_after', 400)
+        maximal = doomed = False
+        while True:
+            dead = set(w.ref for w in p._pool if w.exitcode is not None)
+            drained = not any(snd in dead for _, snd in outq)
+            now = CLOCK[0]
+            marked = [j for j in list(p._cache.values()) if not j.ready() and j._worker_lost]
+            due = [j for j in marked if now - j._worker_lost[0] > j._lost_worker_timeout]
+            useful_tick = bool(dead) or bool(due) or len(p._pool) < p._processes
+            useful_adv = len(due) < len(marked)
+            lost = [j for j in lost if not self.jobs[j].ready()]
+            en = []
+            if todo > 0 and not (p.putlocks and p._putlock is not None and p._putlock._value == 0):
+                en.append(['submit'])
+            if taskq:
+                en.append(['put'])
+            for ref, j in wk.items():
+                if j is None and inq:
+                    en.append(['take', ref])
+                if j is not None:
+                    en.append(['finish', ref])
+            if outq:
+                en.append(['recv'])
+            work_left = bool(en) or bool(lost)
+            progress = bool(en)
+            if kills > 0:
+                for ref, j in wk.items():
+                    if j is not None and rng.random() < spec.get('kill_prob', 0.5):
+                        en.append(['kill', ref, rng.choice(codes)])
+            tick = ['tick'] if drained else (['tick_early'] if allow_early else None)
+            if tick is not None and (useful_tick or rng.random() < idle_p):
+                en.append(tick)
+                if useful_tick:
+                    progress = True
+            if useful_adv or rng.random() < idle_p:
+                en.append(['advance', rng.choice([1, 1, 2, 3, 5, 11])])
+                if useful_adv:
+                    progress = True
+            if not progress or len(sched) >= limit:
+                maximal = not work_left
+                doomed = bool(lost) and not progress
+                break
+            st = rng.choice(en)
+            sched.append(st)
+            ev = None
+            if st[0] == 'submit':
+                todo -= 1
+                taskq.append(len(self.jobs))
+                ev = ['apply', None, None, None, None]
+            elif st[0] == 'put':
+                inq.append(taskq.pop(0))
+            elif st[0] == 'take':
+                j = inq.pop(0)
+                wk[st[1]] = j
+                outq.append((['ack', j, None, st[1]], st[1]))
+            elif st[0] == 'finish':
+                j = wk[st[1]]
+                wk[st[1]] = None
+                outq.append((['ready', j, None, j not in bad, j], st[1]))
+            elif st[0] == 'recv':
+                ev = outq.pop(0)[0]
+            elif st[0] == 'kill':
+                kills -= 1
+                j = wk.pop(st[1])
+                killed[j] = [st[1], st[2]]
+                lost.append(j)
+                ev = ['exit', st[1], st[2]]
+            elif st[0] in ('tick', 'tick_early'):
+                ev = ['tick']
+            else:
+                ev = ['advance', st[1]]
+            if ev is not None:
+                evs.append(ev)
+                out.extend(self.run([ev]))
+                if out[-1]['exc'] == 'Hang':
+                    break
+                if ev[0] == 'tick':
+                    for w in p._pool:
+                        if w.ref not in wk and w.exitcode is None:
+                            wk[w.ref] = None           # a replacement: live, idle
+        return dict(sched=sched, events=evs, obs=out, maximal=maximal, doomed=doomed,
+                    killed=[[j, v[0], v[1]] for j, v in sorted(killed.items())],
+                    live=[[ref, j] for ref, j in wk.items()])
+
     def run(self, events):
         out = []
         events = list(events)
@@ -698,6 +804,8 @@ def main():
         if 'closed' in c:
             sched, evs, obs, maximal = case.run_closed(c['closed'])
             res.append(dict(events=evs, obs=obs, sched=sched, maximal=maximal))
+        elif 'crash' in c:
+            res.append(case.run_crash_closed(c['crash']))
         elif 'gen' in c:
             evs, obs = case.run_gen(c['gen'])
             res.append(dict(events=evs, obs=obs))
